@@ -45,6 +45,11 @@ CHECKS = {
         text="Every reachable quiescent state of the TLC model is a crash/resume point and every outgoing state-changing edge a continuation: the real interpreter is snapshotted there (valid JSON), restored with from_snapshot (+start on the async engine), and the same step is performed on original and restored interpreter, which must agree with each other (configuration, history, context, status, output, error flag, ordered actions); re-snapshotting reproduces the snapshot and an earlier snapshot is unaffected by later execution. spec/SnapCases.tla enumerates every single-point corruption with the demanded verdict; each is applied to the real from_snapshot on both engines.",
         design="DESIGN.md section 8 C12",
         note="Trusted: TLC, exporter, recorder. Child actors in snapshots are not covered by this check. Pending timers / in-flight services are excepted by the property."),
+    "C18": dict(
+        technique="TLA+ specification of the config front end (spec/Frontend.tla: Norm = the machine a raw config denotes, Probs/Class = which configs cannot be interpreted, Apply = 17 documented respellings, single-point corruptions) enumerated by TLC (spec/MCFrontend.tla); every respelt / corrupted config built with the real create_machine and compared with the specification (normal form read back from the library's parse, exception class escaping create/start/send), plus cross-replay of the original machine's SCCore state graph on the respelt machine's real engines",
+        text="Rewrites: for every machine of families W (random mix of spellings over every construct) and T/H/D/S/R/G/E/X/V/A and every rewrite set in {none, all, singletons, random subsets; thorough: all pairs} TLC checks Norm(Apply(J, rs)) = Norm(J) on the spec and emits the respelt config; the harness requires nf_lib(respelt) = nf_lib(original) = Norm(original), the same final configuration after a fixed probe, and replays every TLC edge of the original machine's behaviour graph on the respelt machine's real sync/async engine (state and full log). Corruptions: every node x 11 representative wrong-typed values (quick: a 1/stride sample of nodes); TLC classifies reject / lazy / either / accept(+Norm); observed: raw error = violation always, silent acceptance = violation when reject is demanded, Norm compared when accepted. Negative family: 15 uninterpretable configs driven to first use must raise an XStateMachineError subclass.",
+        design="DESIGN.md section 8 C18",
+        note="Trusted: TLC; the tokeniser and nf_lib reader of harness/frontend.py; the probe (sync engine, all-implementing logic, start + two rounds of every declared event). 'reject' is demanded only for shapes without documented meaning; documented coercions are class 'either'. 'Naming the offender' is measured (evidence: library_errors_naming_offender), not enforced."),
     "C20": dict(
         technique="TLC model checking with a descriptor order defined independently of the implementation-shaped matcher (specificity ranks), over a family of key sets x event types incl. synthetic events and null transitions; edge replay + trace validation",
         text="Prop C20 computes, for every observed selection, the nominee of each active leaf using its own specificity order (exact, partial by decreasing prefix length, wildcard; synthetic done./error./after./xstate. types exact only; a null transition consumes the event at that state) and requires the selection to equal it. Family E: child/parent/root key subsets from a universe of exact, partial, wildcard, look-alike and synthetic keys with guards and null entries; every event type from every reachable state and guard valuation.",
